@@ -99,8 +99,12 @@ class SStrV(OpaqueV):
 
 def sterm(eng, st, v):
     v = deref_ref(eng, st, v)
+    while isinstance(v, RefV):
+        v = deref_ref(eng, st, v)
     if isinstance(v, StrV):
         return View.const(v.s)
+    if isinstance(v, OpaqueV) and v.ty == "bytes" and "text" in v.attrs:
+        return View.const(eval(v.attrs["text"]).decode("latin-1"))
     if isinstance(v, OpaqueV) and "t" in v.attrs:
         return v.attrs["t"]
     raise EngineAbort("not a string value: %r" % (v,))
@@ -147,9 +151,27 @@ def install_backup_env(ctx, eng):
             cond = v_prefix(pv, sv)
             rest = sv.sub(pv.len, sv.len - pv.len)
         src = deref_ref(eng, st, args[0])
+        while isinstance(src, RefV):
+            src = deref_ref(eng, st, src)
         r = SStrV(rest, src.attrs.get("utf8") if isinstance(src, OpaqueV) else None)
         return [Outcome(some(RefV(Cell(r))), [cond]), Outcome(none(), [z3.Not(cond)])]
-    S(r"^core::str::<impl str>::strip_prefix::<", s_strip_prefix)
+    S(r"^core::str::<impl str>::strip_prefix::<|^core::slice::<impl \[u8\]>::strip_prefix::<", s_strip_prefix)
+    S(r"^<(std::ffi::)?OsStr as (std::os::unix::ffi::)?OsStrExt>::as_bytes$|^(std::ffi::)?OsStr::(to_os_string|as_encoded_bytes)$|^core::str::<impl str>::as_bytes$",
+      lambda e, st, c, a, d: Outcome(a[0] if "to_os_string" not in c else deref_ref(e, st, a[0])))
+
+    def s_from_utf8(eng, st, callee, args, dty):
+        src = deref_ref(eng, st, args[0])
+        while isinstance(src, RefV):
+            src = deref_ref(eng, st, src)
+        v = src.attrs["t"]
+        u = src.attrs.get("utf8")
+        ascii_only = v_all(v, lambda x: x < 128, 0, v.len)
+        valid = ascii_only if u is None else z3.Or(u, ascii_only)
+        if u is None:
+            return Outcome(ok(RefV(Cell(SStrV(v)))))
+        return [Outcome(ok(RefV(Cell(SStrV(v, u)))), [valid]),
+                Outcome(AggV("Result", 1, [OpaqueV("Utf8Error")], "Err"), [z3.Not(valid)], events=[Event("non-utf8", [], None)])]
+    S(r"^(core::str::|std::str::)?from_utf8$", s_from_utf8)
 
     def s_strip_suffix(eng, st, callee, args, dty):
         sv = sterm(eng, st, args[0])
@@ -263,7 +285,8 @@ def lemma_is_num_backup(ctx):
             ctx.lemma(eng, "C09: the recognised backup number is the decimal value of N", p.pc, z3.Implies(spec, r.fields[0].t == num))
         else:
             nonutf = any(e.name == "non-utf8" for e in p.trace)
-            if nonutf:
+            whole_name_rejected = nonutf and not eng.valid(p.pc, z3.Not(spec))[0]
+            if whole_name_rejected:
                 ctx.fail("C09: backups of names with non-UTF-8 bytes are recognised too",
                          "OsStr::to_str() returns None for every non-UTF-8 sibling, so its existing .~N~ backups are invisible: "
                          "the next backup reuses .~1~ and replaces the old version",
